@@ -224,6 +224,99 @@ class Gen:
     def rule(self, depth, nested, scopevars, media_depth=0):
         return ('rule', self.selectors(nested), self.body(depth, True, scopevars, media_depth), {'sp_brace': self.rng.random() < 0.6})
 
+    # ---- mixins
+    def mixin_program(self, depth=2):
+        """definitions (any arity, some defaults), calls before and after the definition, calls inside other mixins, bodies with
+        declarations, nested rules, &-selectors and @media; hygiene: parameter names are not names of other variables"""
+        r = self.rng
+        nm = r.choice([1, 2, 2, 3])
+        defs = []
+        for i in range(nm):
+            arity = r.choice([0, 1, 1, 2, 3])
+            params = []
+            for k in range(arity):
+                pname = '@p%d%s' % (i, 'abc'[k])
+                dflt = None
+                if k >= arity - r.choice([0, 0, 1, 2]):
+                    dflt = [self.atom([])] if r.random() < 0.7 else [self.atom([]), ('sp',), self.atom([])]
+                    dflt = [a if a[0] not in ('str', 'url') else ('word', 'solid') for a in dflt]
+                params.append((pname, dflt))
+            # defaults must be trailing for positional calls to make sense
+            seen_default = False
+            for k, (pn, d) in enumerate(params):
+                if seen_default and d is None:
+                    params[k] = (pn, [('num', '1px')])
+                seen_default = seen_default or d is not None
+            defs.append({'name': '.mx%d' % i, 'params': params})
+        for i, d in enumerate(defs):
+            pnames = [p for p, _ in d['params']]
+            body = []
+            for _ in range(r.choice([1, 2, 3])):
+                k = r.random()
+                if k < 0.55 or depth == 0:
+                    body.append(self.decl_using(pnames))
+                elif k < 0.75:
+                    body.append(('rule', self.selectors(nested=True), [self.decl_using(pnames) for _ in range(r.choice([1, 2]))], {'sp_brace': True}))
+                elif k < 0.85 and 'media' in self.f:
+                    body.append(('media', self.query(), [self.decl_using(pnames)]))
+                elif i + 1 < len(defs):
+                    callee = defs[r.randrange(i + 1, len(defs))]       # calls only "downwards": no recursion here
+                    body.append(self.call_of(callee, pnames))
+                else:
+                    body.append(self.decl_using(pnames))
+            if pnames and all(dflt is None for _, dflt in d['params']) and r.random() < 0.3:
+                body.append(('decl', 'border', [('arguments',)], False))
+            d['body'] = body
+        units = []
+        order = [('def', d) for d in defs]
+        ncall = r.choice([1, 2, 3])
+        for ci in range(ncall):
+            d = r.choice(defs)
+            caller_body = []
+            if r.random() < 0.5:
+                caller_body.append(self.decl([]))
+            caller_body.append(self.call_of(d, []))
+            if r.random() < 0.4:
+                caller_body.append(self.call_of(r.choice(defs), []))
+            if r.random() < 0.4:
+                caller_body.append(self.decl([]))
+            order.append(('rule', ('rule', self.selectors(False), caller_body, {'sp_brace': True})))
+        if r.random() < 0.4:
+            # an ordinary rule used as a mixin
+            order.append(('rule', ('rule', [[('class', '.plain')]], [self.decl([]), ('rule', [[('class', '.in')]], [self.decl([])], {'sp_brace': True})], {'sp_brace': True})))
+            order.append(('rule', ('rule', self.selectors(False), [('call', '.plain', None, ','), self.decl([])], {'sp_brace': True})))
+        r.shuffle(order)
+        for kind, x in order:
+            units.append(('mixin', x['name'], x['params'], x['body']) if kind == 'def' else x)
+        return units
+
+    def decl_using(self, pnames):
+        r = self.rng
+        if pnames and r.random() < 0.8:
+            v = []
+            for i in range(r.choice([1, 1, 2])):
+                if i:
+                    v.append(('sp',))
+                v.append(('var', r.choice(pnames)) if r.random() < 0.7 else self.atom([]))
+            v = [a if a[0] not in ('str', 'url') else ('word', 'solid') for a in v]
+            return ('decl', r.choice(PROPS), v, False)
+        return self.decl([])
+
+    def call_of(self, d, visible):
+        r = self.rng
+        nreq = sum(1 for _, dflt in d['params'] if dflt is None)
+        nargs = r.randint(nreq, len(d['params']))
+        args = []
+        for _ in range(nargs):
+            k = r.random()
+            if visible and k < 0.4:
+                args.append([('var', r.choice(visible))])
+            elif k < 0.8:
+                args.append([('num', self.number())] if r.random() < 0.6 else [('word', r.choice(WORDS))])
+            else:
+                args.append([('num', self.number()), ('sp',), ('word', r.choice(WORDS))])
+        return ('call', d['name'], args, r.choice([',', ';']))
+
     def sheet(self, nunits=None, depth=3):
         r = self.rng
         out = []
@@ -314,6 +407,8 @@ def show_value(val, L):
             out += ',' + L.opt()
         elif k == 'url':
             out += 'url(' + it[1] + ')'
+        elif k == 'arguments':
+            out += '@arguments'
         elif k == 'expr':
             out += show_expr(it[1], L)
         else:
@@ -334,7 +429,10 @@ def show_query(q, L):
 def show_stmts(stmts, L, last_semicolon=True):
     out = ''
     for i, s in enumerate(stmts):
-        out += L.stmt_gap() if (i or L.wild) else ''
+        gap = L.stmt_gap() if (i or L.wild) else ''
+        if i and stmts[i - 1][0] == 'call' and not gap.startswith((' ', '\t')):
+            gap = ' ' + gap             # known finding F14b: after `.m();` the selector lexer mode survives until a blank
+        out += gap
         k = s[0]
         if k == 'decl':
             last = (i == len(stmts) - 1)
@@ -343,7 +441,10 @@ def show_stmts(stmts, L, last_semicolon=True):
         elif k == 'var':
             out += s[1] + ':' + L.opt() + show_value(s[2], L) + ';'
         elif k == 'rule':
-            out += (',' + L.opt()).join(show_sel(x, L) for x in s[1]) + (L.blank() if s[3].get('sp_brace') else '') + '{' + show_stmts(s[2], L) + L.stmt_gap() + '}'
+            inner_gap = L.stmt_gap()
+            if s[2] and s[2][-1][0] == 'call' and not inner_gap.startswith((' ', '\t')):
+                inner_gap = ' ' + inner_gap
+            out += (',' + L.opt()).join(show_sel(x, L) for x in s[1]) + (L.blank() if s[3].get('sp_brace') else '') + '{' + show_stmts(s[2], L) + inner_gap + '}'
         elif k == 'media':
             out += '@media' + L.blank() + show_query(s[1], L) + L.blank() + '{' + show_stmts(s[2], L) + L.stmt_gap() + '}'
         elif k == 'keyframes':
@@ -355,6 +456,16 @@ def show_stmts(stmts, L, last_semicolon=True):
             out += '@font-face' + L.blank() + '{' + show_stmts(s[1], L) + L.stmt_gap() + '}'
         elif k == 'stmt':
             out += ''.join(s[1])
+        elif k == 'mixin':
+            ps = []
+            for pn, d in s[2]:
+                ps.append(pn + ((':' + L.opt() + show_value(d, L)) if d is not None else ''))
+            out += s[1] + '(' + (';' + L.opt()).join(ps) + ')' + L.opt() + '{' + show_stmts(s[3], L) + L.stmt_gap() + '}'
+        elif k == 'call':
+            if s[2] is None:
+                out += s[1] + ';'
+            else:
+                out += s[1] + '(' + (s[3] + L.opt()).join(show_value(a, L) for a in s[2]) + ');'
     return out
 
 
@@ -439,6 +550,8 @@ def value_tokens(val, trailing_blank=False):
             toks.append('VT %s' % coq_str(fmt_color(it[1])))
         elif k == 'var':
             toks.append('VVar %s' % coq_str(it[1]))
+        elif k == 'arguments':
+            toks.append('VVar %s' % coq_str('@arguments'))
         elif k == 'url':
             toks.append('VCall %s [VT %s]' % (coq_str('url'), coq_str(it[1])))
         elif k == 'expr':
@@ -484,6 +597,11 @@ def tree_stmts(stmts):
             out.append('NBlock %s %s' % (coq_list(coq_str(t) for t in ['@font-face', ' ']), coq_list(tree_stmts(s[1]))))
         elif k == 'stmt':
             out.append('NStmt %s' % coq_list(coq_str(t) for t in s[1]))
+        elif k == 'mixin':
+            ps = ['(%s, %s)' % (coq_str(pn), ('Some %s' % coq_list(value_tokens(d))) if d is not None else 'None') for pn, d in s[2]]
+            out.append('NMixin %s %s %s' % (coq_str(s[1]), coq_list(ps), coq_list(tree_stmts(s[3]))))
+        elif k == 'call':
+            out.append('NCall %s %s' % (coq_str(s[1]), coq_list(coq_list(value_tokens(a)) for a in (s[2] or []))))
     return ['(%s)' % x for x in out]
 
 
@@ -504,6 +622,19 @@ def sel_count(stmts, parents=1):
         elif s[0] == 'media':
             worst = max(worst, sel_count(s[2], parents))
     return worst
+
+
+def arguments_after_call(stmts):
+    """classifier of known finding F27"""
+    for s in stmts:
+        if s[0] == 'mixin':
+            seen_call = False
+            for c in s[3]:
+                if c[0] == 'call':
+                    seen_call = True
+                elif c[0] == 'decl' and seen_call and any(it[0] == 'arguments' for it in c[2]):
+                    return True
+    return False
 
 
 def media_feature_first(stmts, feature_first_outer=False):
@@ -553,4 +684,6 @@ def size(stmts):
         n += 1
         if s[0] in ('rule', 'media'):
             n += size(s[2])
+        elif s[0] == 'mixin':
+            n += size(s[3])
     return n
